@@ -250,6 +250,23 @@ pub fn generate(ctx: &mut Ctx) {
         let m = crate::c03::mutate_bytes(&mut rng, &d);
         ctx.case("z:mutant", &format!("z {}", vx::hex(&m)));
     }
+    // timestamps in periods whose zone offset has seconds: written with the true offset (minutes) and, as an
+    // accepted text whose offset does not fit the zone, with a whole-hour offset
+    for dt in gen::lmt_datetimes() {
+        let v = Value::DateTime(dt);
+        if let Ok(t) = to_zinc_string(&v) {
+            ctx.case("z:lmt", &format!("z {}", vx::h(&t)));
+            ctx.case("z:lmt", &format!("z {}", vx::h(&format!("[{t}, {t}]"))));
+            if let Some((head, zone)) = t.rsplit_once(' ') {
+                if head.len() > 6 {
+                    ctx.case("z:lmt", &format!("z {}", vx::h(&format!("{}+07:00 {zone}", &head[..head.len() - 6]))));
+                }
+            }
+        }
+        if let Ok(j) = serde_json::to_string(&v) {
+            ctx.case("j:lmt", &format!("j {}", vx::h(&j)));
+        }
+    }
     // raw control characters inside a Uri are accepted by the reader: they must survive re-encoding
     for t in ["`a\tb`", "`\u{1}`", "[`a\u{1f}b`,\"x\"]", "ver:\"3.0\"\na\n`x\ty`\n"] {
         ctx.case("z:ctrl", &format!("z {}", vx::h(t)));
